@@ -18,6 +18,19 @@ fn main() {
                 println!("{}", p.id);
             }
         }
+        "hash" => {
+            // development aid: pv hash <alg> <hex> -> digest by M-hash
+            use pkgsrc_verif::models::hash as h;
+            let alg = h::Alg::from_name_ci(&args[2]).expect("alg");
+            let bytes: Vec<u8> = (0..args[3].len() / 2).map(|i| u8::from_str_radix(&args[3][2 * i..2 * i + 2], 16).unwrap()).collect();
+            println!("{}", h::digest(alg, &bytes));
+        }
+        "modelcheck" => {
+            use pkgsrc_verif::models as m;
+            for (n, r) in [("dewey", m::dewey::selfcheck()), ("pattern", m::pattern::selfcheck()), ("plist", m::plist::selfcheck()), ("summary", m::summary::selfcheck()), ("hash", m::hash::selfcheck())] {
+                println!("{} {:?}", n, r);
+            }
+        }
         "selftest" => {
             let mut bad = 0;
             for p in &props {
